@@ -2,6 +2,7 @@ import Proofs.C20
 import Proofs.TieBuild
 import Proofs.TieLoopTail
 import Proofs.TieBasis
+import Proofs.SrcC20
 #print axioms PV.Proofs.C20.build_inner_pos
 #print axioms PV.Proofs.C20.build_ok
 #print axioms PV.Proofs.C20.work_exact
@@ -22,3 +23,4 @@ import Proofs.TieBasis
 #print axioms PV.Proofs.Tie.value_range_tie
 #print axioms PV.Proofs.Tie.clamped_tie
 #print axioms PV.Proofs.Tie.sample_tie
+#print axioms PV.Proofs.Source.C20_source_inner_pos
